@@ -7,7 +7,7 @@
 //!   tagname <hex utf8> <enc> <doc>                    Element::set_tag_name on document <doc>
 //!
 //!   attrseq <enc> <hex utf8 name> <hex of the lower-cased name in <enc>> <hex source attr name|-> <hex v1> <hex v2>
-//!                                                     two `set_attribute(name, v)` calls on `<a>` / `<a SRC=0>`; enc also sjis|big5|gbk
+//!                                                     two `set_attribute(name, v)` calls on `<a>` / `<a SRC=0>`; enc also sjis|big5|gbk|euckr|gb18030
 //!                                                     (finding F22: case-insensitive comparison on ENCODED bytes)
 //!
 //! Observation: `<kind> <result> <hex of the serialised output>` (diffed with the Lean model).
@@ -16,7 +16,7 @@
 //! plus exactly the inserted piece, and a rejected input must leave the output equal to the input.
 //! Violations are appended as ` ||ORACLE:C08:<site-tag> ...`.
 use crate::util::*;
-use encoding_rs::{BIG5, Encoding, GBK, SHIFT_JIS, UTF_8, X_USER_DEFINED};
+use encoding_rs::{BIG5, EUC_KR, Encoding, GB18030, GBK, SHIFT_JIS, UTF_8, X_USER_DEFINED};
 use lol_html::errors::{AttributeNameError, CommentTextError, TagNameError};
 use lol_html::html_content::ContentType;
 use lol_html::{AsciiCompatibleEncoding, HtmlRewriter, Settings, doc_comments, doc_text, element};
@@ -39,6 +39,8 @@ fn enc_of(s: &str) -> Option<&'static Encoding> {
         "sjis" => Some(SHIFT_JIS),
         "big5" => Some(BIG5),
         "gbk" => Some(GBK),
+        "euckr" => Some(EUC_KR),
+        "gb18030" => Some(GB18030),
         _ => None,
     }
 }
